@@ -123,35 +123,6 @@ Proof. reflexivity. Qed.
 Lemma join_lists_perm_l A A' B : Permutation A A' -> Permutation (join_lists A B) (join_lists A' B).
 Proof. apply Permutation_flat_map. Qed.
 
-(* ---- the join-free fragment at top level ---- *)
-Fixpoint frag0 (p : alg) : bool :=
-  match p with
-  | BGP _ => true
-  | Union a b => frag0 a && frag0 b
-  | Project q _ => frag0 q
-  | Graph (Vr _) q => frag0 q
-  | _ => false
-  end.
-
-Lemma td_bu_frag0 ds p : frag0 p = true ->
-  forall g, Permutation (eval_td ds g [] p) (eval_bu ds g p).
-Proof.
-  induction p; cbn [frag0]; try discriminate; intros F g0.
-  - cbn [eval_td eval_bu]. rewrite eval_bgp_ext. apply bgp_ext_perm; [apply sort_ts_perm|reflexivity].
-  - apply andb_true_iff in F as [F1 F2]. cbn. apply Permutation_app; auto.
-  - cbn. apply Permutation_map. auto.
-  - destruct g as [t|v]; [discriminate|]. cbn.
-    apply flat_map_perm_pointwise. intros ng _. apply join_lists_perm_l. auto.
-Qed.
-
-Definition in_frag0 (c : case) : bool := frag0 (c_alg c).
-
-Theorem main_frag0 c : in_frag0 c = true -> spec_ok c (model_obs c) = true.
-Proof.
-  intros F. unfold spec_ok, model_obs, spec_rows. rewrite answer_perm; [reflexivity|].
-  symmetry. apply td_bu_frag0, F.
-Qed.
-
 (* ---- the findings: concrete witnesses (evaluated) ---- *)
 Definition W (alg : alg) (d : graph) : case :=
   {| c_ds := {| ds_default := d; ds_named := [] |}; c_form := FSelect; c_alg := alg |}.
@@ -178,12 +149,3 @@ Definition refuted (c : case) : Prop := spec_ok c (model_obs c) = false /\ N.eqb
 Lemma findings_refuted : refuted w1 /\ refuted w2 /\ refuted w3 /\ refuted w4 /\ refuted w6 /\ refuted w7.
 Proof. repeat split; vm_compute; reflexivity. Qed.
 
-(* the proved fragment lies inside the region where no trigger fires *)
-Lemma scan_frag0 p : frag0 p = true -> forall names inex, scan names inex [] p = 0.
-Proof.
-  induction p; cbn [frag0]; try discriminate; intros F names inex; cbn [scan].
-  - reflexivity.
-  - apply andb_true_iff in F as [F1 F2]. rewrite IHp1, IHp2 by assumption. reflexivity.
-  - cbn. apply IHp, F.
-  - destruct g as [t|v]; [discriminate|]. cbn. rewrite andb_false_r. cbn. apply IHp, F.
-Qed.
